@@ -21,7 +21,7 @@ FUNCTIONS = ["Scalar/Array/FixedArray/FractionScalar arithmetic, comparison, Get
              "FractionScalar.ConvertFractionValue", "UnitDatabase.Convert / Sum / Subtract / Multiply / Divide / FloorDivide / _MatchQuantities / _ConvertToMatchedUnit",
              "ChangeScalars"]
 BOUNDS = {
-    "quick": "values: all reals; pool of 16 value objects (Scalar simple/derived/empty/unknown-caption, Array over list/tuple/numpy simple and derived, "
+    "quick": "values: all reals; pool of 20 value objects (incl. a derived quantity with two categories of one type in different units and arrays in a category with limits) (Scalar simple/derived/empty/unknown-caption, Array over list/tuple/numpy simple and derived, "
              "FixedArray list/numpy, FractionScalar with and without fraction); every unary operation on every member and every binary operator on a "
              "seeded sample of 260 ordered pairs; one step",
     "thorough": "same pool; every binary operator on every ordered pair; plus 6000 seeded two-step chains",
@@ -29,7 +29,7 @@ BOUNDS = {
 ASSUMPTIONS = ["A-FP", "A-NP incl. in-place ufunc semantics (out=) of the object-array model", "formatting runs with its output discarded (C-level %g on the NaN payload)",
                "proxies pickle by reference, so the real __reduce__ of Scalar/FixedArray/Quantity is what is exercised"]
 CHUNK = 10
-POOL = ["s_m", "s_cm_depth", "s_degC", "s_m2", "s_cm2", "s_per_s", "s_empty", "s_unknown", "a_list_m", "a_tuple_cm", "a_np_m", "a_np_cm2", "a_list_m2",
+POOL = ["s_two_cats", "a_np_limited", "a_list_limited", "s_m", "s_cm_depth", "s_degC", "s_m2", "s_cm2", "s_per_s", "s_empty", "s_unknown", "a_list_m", "a_tuple_cm", "a_np_m", "a_np_cm2", "a_list_m2",
         "f_list_m", "f_np_cm", "fs_in", "fs_frac_in"]
 BINOPS = ["add", "sub", "mul", "div", "fdiv", "radd_num", "rdiv_num", "mul_num", "eq", "ne", "lt", "le"]
 UNOPS = ["GetValue_other", "GetValue_own", "CreateCopy", "CreateCopy_unit", "CreateCopy_value", "IsValid", "CheckValidity", "str", "repr", "GetFormatted",
@@ -74,7 +74,16 @@ def make_pool(V):
     from barril.units import Array, FixedArray, FractionScalar, GetUnknownQuantity, Scalar
 
     x = [V["x%d" % i] for i in range(24)]
+    from collections import OrderedDict
+    from barril.units import Quantity, UnitDatabase
+
+    db = UnitDatabase.GetSingleton()
+    if not db.IsValidCategory("c13 limited"):
+        db.AddCategory("c13 limited", "length", min_value=-1e30, max_value=1e30)
     p = {}
+    p["s_two_cats"] = Scalar.CreateWithQuantity(Quantity.CreateDerived(OrderedDict([("length", ["m", 1]), ("depth", ["cm", 1])])), x[0])
+    p["a_np_limited"] = Array(_arr([x[13], x[12], x[1]]), "m", "c13 limited")
+    p["a_list_limited"] = Array([x[9], x[8]], "cm", "c13 limited")
     p["s_m"] = Scalar(x[0], "m")
     p["s_cm_depth"] = Scalar(x[1], "cm", "depth")
     p["s_degC"] = Scalar(x[2], "degC")
@@ -231,6 +240,17 @@ def _step(pool, op, a, b, V):
 
 
 def run(cfg, V):
+    # a fresh database per run: a corrupted cached quantity must not survive into the replay of the very step that corrupted it
+    from barril.units import Quantity
+
+    from .common import fresh_posc_db, pushed
+
+    Quantity._EMPTY_QUANTITY = None
+    with pushed(fresh_posc_db()):
+        return _run(cfg, V)
+
+
+def _run(cfg, V):
     from barril.units import Array, FractionScalar, Scalar
 
     pool = make_pool(V)
@@ -269,7 +289,9 @@ def props(cfg, T, obs):
         if obs.isa(ZeroDivisionError):
             return []  # zero divisor while building the pool
         return [("no unexpected exception type from a public operation", False)]
-    P = [("no operand changed (values, container contents, unit, category, dimension, fraction parts)", obs["changed"] == []),
+    P = [("copy, deepcopy, CreateCopy() and comparison/formatting operations succeed on every pool member",
+          not (cfg["op"] in ("copy", "deepcopy", "CreateCopy", "CreateCopy_value", "str", "repr", "GetFormatted", "eq", "ne", "IsValid", "GetValue_own") and obs["exc"] is not None)),
+         ("no operand changed (values, container contents, unit, category, dimension, fraction parts)", obs["changed"] == []),
          ("every value object still holds the very container it was given", bool(obs["same_containers"]))]
     if "fresh" in obs:
         P.append(("the result is a new object", bool(obs["fresh"]) and obs.get("fresh_container", True)))
